@@ -201,6 +201,11 @@ struct DeclarationsGraph {
     // of tht item in the graph.
     id_to_index: HashMap<Id, NodeIndex>,
     index_to_id: HashMap<NodeIndex, Id>,
+
+    // Every edge as (referrer, referred). The edges of the graph above point
+    // from a base type to the type derived from it but from a container to
+    // what it contains, so a cycle through both kinds is not a cycle there.
+    references: Vec<(NodeIndex, NodeIndex)>,
 }
 impl DeclarationsGraph {
     fn new() -> Self {
@@ -208,6 +213,43 @@ impl DeclarationsGraph {
             graph: StableDiGraph::new(),
             id_to_index: HashMap::new(),
             index_to_id: HashMap::new(),
+            references: Vec::new(),
+        }
+    }
+
+    /// Adds the relationship that `derived` is declared in terms of `base`.
+    fn add_derived_from(&mut self, base: NodeIndex, derived: NodeIndex) {
+        self.graph.add_edge(base, derived, ());
+        self.references.push((derived, base));
+    }
+
+    /// Adds the relationship that `container` has a member of type `member`.
+    fn add_contains(&mut self, container: NodeIndex, member: NodeIndex) {
+        self.graph.add_edge(container, member, ());
+        self.references.push((container, member));
+    }
+
+    /// Returns a declaration that refers to itself through any mix of
+    /// derivation and containment.
+    fn id_in_reference_cycle(&self) -> Option<&Id> {
+        let mut references: StableDiGraph<(), (), u32> = StableDiGraph::new();
+        let nodes: HashMap<NodeIndex, NodeIndex> = self
+            .index_to_id
+            .keys()
+            .map(|index| (*index, references.add_node(())))
+            .collect();
+        let mut originals: HashMap<NodeIndex, NodeIndex> = HashMap::new();
+        for (original, node) in &nodes {
+            originals.insert(*node, *original);
+        }
+        for (from, to) in &self.references {
+            references.add_edge(nodes[from], nodes[to], ());
+        }
+        match toposort(&references, None) {
+            Ok(_) => None,
+            Err(err) => originals
+                .get(&err.node_id())
+                .and_then(|original| self.index_to_id.get(original)),
         }
     }
 
@@ -248,6 +290,12 @@ impl DeclarationsGraph {
                 Label::span(span, "Cycle"),
             )
         })?;
+        if let Some(id) = self.id_in_reference_cycle() {
+            return Err(Diagnostic::problem(
+                Problem::RecursiveCycle,
+                Label::span(id.span.clone(), "Cycle"),
+            ));
+        }
         let sorted_ids: Vec<Id> = sorted_nodes
             .iter()
             .map(|node| self.index_to_id.get(node).unwrap().clone())
@@ -282,7 +330,7 @@ impl Visitor<Diagnostic> for RuleGraphReferenceableElements {
     ) -> Result<Self::Value, Diagnostic> {
         let this = self.declarations.add_node(&node.data_type_name.name);
         let depends_on = self.declarations.add_node(&node.base_type_name.name);
-        self.declarations.graph.add_edge(depends_on, this, ());
+        self.declarations.add_derived_from(depends_on, this);
 
         node.recurse_visit(self)
     }
@@ -295,7 +343,7 @@ impl Visitor<Diagnostic> for RuleGraphReferenceableElements {
 
         if let EnumeratedSpecificationKind::TypeName(parent) = &node.spec_init.spec {
             let depends_on = self.declarations.add_node(&parent.name);
-            self.declarations.graph.add_edge(depends_on, this, ());
+            self.declarations.add_derived_from(depends_on, this);
         };
 
         node.recurse_visit(self)
@@ -309,7 +357,7 @@ impl Visitor<Diagnostic> for RuleGraphReferenceableElements {
 
         if let SubrangeSpecificationKind::Type(parent) = &node.spec {
             let depends_on = self.declarations.add_node(&parent.name);
-            self.declarations.graph.add_edge(depends_on, this, ());
+            self.declarations.add_derived_from(depends_on, this);
         };
 
         node.recurse_visit(self)
@@ -323,7 +371,7 @@ impl Visitor<Diagnostic> for RuleGraphReferenceableElements {
 
         if let ArraySpecificationKind::Type(parent) = &node.spec {
             let depends_on = self.declarations.add_node(&parent.name);
-            self.declarations.graph.add_edge(depends_on, this, ());
+            self.declarations.add_derived_from(depends_on, this);
         };
 
         node.recurse_visit(self)
@@ -395,7 +443,7 @@ impl Visitor<Diagnostic> for RuleGraphReferenceableElements {
             Some(from) => {
                 let from = self.declarations.add_node(from);
                 let to = self.declarations.add_node(&init.type_name.name);
-                self.declarations.graph.add_edge(from, to, ());
+                self.declarations.add_contains(from, to);
             }
             None => return Err(Diagnostic::todo(file!(), line!())),
         }
@@ -419,7 +467,7 @@ impl Visitor<Diagnostic> for RuleGraphReferenceableElements {
                         // We only care about these because these may be references to a function block
                         let from = self.declarations.add_node(from);
                         let to = self.declarations.add_node(&fb.type_name.name);
-                        self.declarations.graph.add_edge(from, to, ());
+                        self.declarations.add_contains(from, to);
                     }
                     InitialValueAssignmentKind::Subrange(_) => {}
                     InitialValueAssignmentKind::Structure(_) => {}
@@ -428,7 +476,7 @@ impl Visitor<Diagnostic> for RuleGraphReferenceableElements {
                         // We nly care about these because these may be references to a function block
                         let from = self.declarations.add_node(from);
                         let to = self.declarations.add_node(&lrt.name);
-                        self.declarations.graph.add_edge(from, to, ());
+                        self.declarations.add_contains(from, to);
                     }
                 }
             }
